@@ -214,6 +214,15 @@ func FindProtocolVersion(data []byte) string {
 // result column that is not binary (a scalar-returning method) — so the
 // caller can forward the body unchanged.
 func ReadUnaryResult(data []byte) (schema *arrow.Schema, result []byte, ok bool) {
+	// The IPC reader does not validate a column's offsets against its value
+	// buffer, so reading the result cell of a corrupted body can panic with a
+	// slice-bounds error. A malformed body is "not a result", like every other
+	// shape this function declines.
+	defer func() {
+		if r := recover(); r != nil {
+			schema, result, ok = nil, nil, false
+		}
+	}()
 	reader, err := ipc.NewReader(bytes.NewReader(data))
 	if err != nil {
 		return nil, nil, false
